@@ -21,6 +21,12 @@ from ..worldlib import pylines
 IGNORE = "# static analysis: ignore"
 
 
+def _nobom(text):
+    """pyanalyze reads files as utf-8 and parses the encoded bytes; parse the str the same way."""
+    return text[1:] if text.startswith("\ufeff") else text
+
+
+
 def dkey(d):
     return (d["file"], d["line"], d["col"], d["code"], d["desc"])
 
@@ -36,7 +42,7 @@ def failures_of(res):
 
 def safe_dump(text):
     try:
-        return ast.dump(ast.parse(text))
+        return ast.dump(ast.parse(_nobom(text)))
     except (SyntaxError, ValueError):
         return None
 
@@ -96,7 +102,7 @@ def _dump_any(v):
 
 
 def module_diff(old_text, new_text):
-    old, new = ast.parse(old_text), ast.parse(new_text)
+    old, new = ast.parse(_nobom(old_text)), ast.parse(_nobom(new_text))
     out = []
     _stmts_diff(old.body, new.body, out)
     return out
@@ -127,6 +133,115 @@ def minimal_expr_pair(old, new):
             return old, new
 
 
+ASYNQ_MERGE = {"duplicate_yield", "unnecessary_yield"}
+ASYNQ_WRAP = {"task_needs_yield", "missing_await", "impure_async_call"}
+
+
+def leaf_statements(tree):
+    """Statements without a body, in source order."""
+    out = []
+
+    def walk(body):
+        for s in body:
+            if isinstance(s, (ast.FunctionDef, ast.AsyncFunctionDef, ast.ClassDef)):
+                out.append(("def", s.name, [ast.dump(d) for d in s.decorator_list]))
+                walk(s.body)
+                continue
+            sub = [getattr(s, f, None) for f in ("body", "orelse", "finalbody")]
+            if any(isinstance(b, list) and b for b in sub):
+                out.append(("head", type(s).__name__))
+                for b in sub:
+                    if isinstance(b, list):
+                        walk(b)
+                for h in getattr(s, "handlers", []) or []:
+                    walk(h.body)
+                continue
+            out.append(s)
+    walk(tree.body)
+    return out
+
+
+def _flatten_targets(t):
+    if isinstance(t, (ast.Tuple, ast.List)):
+        return [ast.unparse(e) for e in t.elts]
+    return [ast.unparse(t)]
+
+
+def yield_pairs(stmt):
+    """(target, yielded expression) pairs of `t = yield e` / `a, b = yield e1, e2` / `yield e`."""
+    value = getattr(stmt, "value", None)
+    if not isinstance(stmt, (ast.Assign, ast.Expr)) or not isinstance(value, ast.Yield):
+        return None
+    y = value.value
+    values = [ast.unparse(e) for e in y.elts] if isinstance(y, ast.Tuple) else ([ast.unparse(y)] if y is not None else [])
+    if isinstance(stmt, ast.Expr):
+        return [("_", v) for v in values]
+    if len(stmt.targets) != 1:
+        return [("?", ast.unparse(stmt))]
+    targets = _flatten_targets(stmt.targets[0])
+    if len(targets) == len(values) and len(targets) > 1:
+        return list(zip(targets, values))
+    if len(targets) == 1:
+        return [(targets[0], "(%s)" % ", ".join(values) if len(values) > 1 else (values[0] if values else ""))]
+    return [("?", ast.unparse(stmt))]
+
+
+def yield_merge_preserved(old_text, new_text):
+    """For the yield-batching fixes: every (name <- yielded task) binding is preserved, and the other
+    statements are the same, in the same order."""
+    old, new = ast.parse(_nobom(old_text)), ast.parse(_nobom(new_text))
+    res = []
+    for tree in (old, new):
+        pairs = collections.Counter()
+        others = []
+        for s in leaf_statements(tree):
+            if isinstance(s, tuple):
+                others.append(repr(s))
+                continue
+            yp = yield_pairs(s)
+            if yp is None:
+                others.append(ast.dump(s))
+            else:
+                for t, v in yp:
+                    pairs[(t if t != "_" else "_", v)] += 1
+        res.append((pairs, others))
+    (p_old, o_old), (p_new, o_new) = res
+    if p_old != p_new:
+        return "yield bindings changed: %s -> %s" % (sorted(p_old.elements())[:6], sorted(p_new.elements())[:6])
+    if o_old != o_new:
+        return "statements other than the merged yields changed"
+    return None
+
+
+class _StripAsync(ast.NodeTransformer):
+    def visit_Yield(self, node):
+        self.generic_visit(node)
+        return node.value if node.value is not None else node
+
+    def visit_Await(self, node):
+        self.generic_visit(node)
+        return node.value
+
+    def visit_YieldFrom(self, node):
+        self.generic_visit(node)
+        return node.value
+
+    def visit_Attribute(self, node):
+        self.generic_visit(node)
+        if node.attr == "asynq":
+            return node.value
+        return node
+
+    def visit_FunctionDef(self, node):
+        self.generic_visit(node)
+        node.decorator_list = [d for d in node.decorator_list if ast.unparse(d) not in ("asynq()",)]
+        return node
+
+
+def strip_async_dump(text):
+    return ast.dump(_StripAsync().visit(ast.parse(_nobom(text))))
+
+
 class _Env(dict):
     def __missing__(self, key):
         if key.startswith("undefined_") or key in ("__builtins__",):
@@ -140,7 +255,7 @@ def eval_equal(module_text, old_expr, new_expr):
         return False, None, "not expressions"
     glob = {}
     try:
-        exec(compile(module_text, "<c16-oracle>", "exec"), glob)
+        exec(compile(_nobom(module_text), "<c16-oracle>", "exec"), glob)
     except BaseException as e:
         return False, None, "module did not execute: %r" % (e,)
     results = []
@@ -176,7 +291,7 @@ def classify_s1_autofix(before, first):
     if not first["add"] and dels:
         # deleted statement was the only statement of its block?
         try:
-            tree = ast.parse(before)
+            tree = ast.parse(_nobom(before))
         except SyntaxError:
             return "unclassified"
         for node in ast.walk(tree):
@@ -191,7 +306,7 @@ def line_inside_multiline_string(text, lineno, strict_end=True):
     """Is physical line `lineno` a continuation line of a string literal spanning several lines
     (so that no comment can be put directly above it)?"""
     try:
-        tree = ast.parse(text)
+        tree = ast.parse(_nobom(text))
     except SyntaxError:
         return False
     for node in ast.walk(tree):
@@ -207,7 +322,7 @@ def line_has_semicolon_stmts(text, lineno):
     """Does more than one statement start on this physical line (`a = 1; b = 2`, or a one-line
     compound statement `if c: stmt`)?  The fixer assumes a statement owns its lines."""
     try:
-        tree = ast.parse(text)
+        tree = ast.parse(_nobom(text))
     except SyntaxError:
         return False
     n = 0
@@ -346,7 +461,7 @@ class Judge:
                 L = dels[0]
                 # own-line form inserts one line above L; the trailing form (used next to the file
                 # header) rewrites L in place
-                shift = len(first["add"]) - len(dels)
+                shift = len(pylines("".join(first["add"]))) - len(dels)
                 # S3
                 still = [d for d in P2f if d["line"] == L + shift and d["code"] == code]
                 if still:
@@ -382,7 +497,8 @@ class Judge:
 
     def judge_autofix(self, step, name, old_text, new_text, first, code, desc, Pf, P2f):
         dels = first["del"]
-        adds = first["add"]
+        # an element of the additions may hold several physical lines
+        adds = pylines("".join(first["add"]), True)
         # S3: strictly fewer diagnostics with this code+description
         n_old = sum(1 for d in Pf if d["code"] == code and d["desc"] == desc)
         n_new = sum(1 for d in P2f if d["code"] == code and d["desc"] == desc)
@@ -390,20 +506,32 @@ class Judge:
             self.add("S3", step, "autofix:%s:diagnostic-still-reported" % code, "%s: %r still reported %d time(s) after its fix was applied" % (name, desc, n_new),
                      file=name, before=old_text, after=new_text)
             return
-        # S4a: diagnostics outside the replaced region are unchanged (shifted)
-        shift = len(adds) - len(dels)
+        # S4a: diagnostics outside the replaced lines are unchanged (shifted).  The change deletes the
+        # lines in `dels` (not necessarily contiguous) and inserts `adds` after the highest of them.
+        delset = set(dels)
+        top = max(dels)
+
+        def new_line(l):
+            below = sum(1 for x in dels if x < l)
+            return l - below + (len(adds) if l > top else 0)
+
+        region_start = top - len(dels) + 1
         expect = collections.Counter()
         for d in Pf:
-            if d["line"] is None or d["line"] < dels[0]:
+            if d["line"] is None:
                 expect[dkey(d)] += 1
-            elif d["line"] > dels[-1]:
+            elif d["line"] not in delset:
                 nd = dict(d)
-                nd["line"] = d["line"] + shift
+                nd["line"] = new_line(d["line"])
                 expect[dkey(nd)] += 1
         got = collections.Counter()
         for d in P2f:
-            if d["line"] is None or d["line"] < dels[0] or d["line"] >= dels[0] + len(adds):
+            if d["line"] is None or d["line"] < region_start or d["line"] >= region_start + len(adds):
                 got[dkey(d)] += 1
+        if code in ASYNQ_MERGE:
+            # batching yields legitimately rewords the neighbouring yield diagnostics
+            expect = collections.Counter({k: v for k, v in expect.items() if k[3] not in ASYNQ_MERGE})
+            got = collections.Counter({k: v for k, v in got.items() if k[3] not in ASYNQ_MERGE})
         if expect != got:
             lost = sorted((expect - got).elements())
             gained = sorted((got - expect).elements())
@@ -426,6 +554,20 @@ class Judge:
         try:
             diffs = module_diff(old_text, new_text)
         except SyntaxError:
+            return
+        if code in ASYNQ_MERGE:
+            problem = yield_merge_preserved(old_text, new_text)
+            if problem:
+                fail("autofix:%s:bindings-not-preserved" % code, "%s: %s" % (name, problem), file=name, before=old_text, after=new_text)
+            else:
+                self.stats["S4_autofix_ok"] += 1
+            return
+        if code in ASYNQ_WRAP or code == "missing_asynq":
+            if strip_async_dump(old_text) != strip_async_dump(new_text):
+                fail("autofix:%s:more-than-the-wrapper-changed" % code, "%s: the fix changed more than adding yield/await/.asynq/@asynq()" % name,
+                     file=name, before=old_text, after=new_text)
+            else:
+                self.stats["S4_autofix_ok"] += 1
             return
         if code == "unused_ignore":
             if diffs:
